@@ -66,9 +66,9 @@ def a04_window_invariant(ctx):
     for bid in f.bodies:
         if bid.startswith(inst) and '{closure' not in bid:
             methods[bid[len(inst):]] = bid
-    for tr_ in ('<core::window::Window<f64> as std::ops::Index<u8>>::index',):
-        if tr_ in f.bodies:
-            methods['Index::index'] = tr_
+    for tr_ in f.bodies:
+        if tr_.startswith('<core::window::Window<f64> as std::ops::Index<u') and tr_.endswith('>>::index'):
+            methods['Index::index'] = tr_          # Index<PeriodType>: u8 / u16 / u32 / u64 by feature
     needed = ('push', 'newest', 'oldest', 'slice_index', 'get', 'Index::index', 'is_empty', 'len', 'iter', 'iter_rev', 'new', 'from_parts', 'empty')
     for nme in needed:
         if nme not in methods:
